@@ -4,6 +4,7 @@ from fractions import Fraction
 from .model import *
 from .lib import *
 from .corpus_ctor import Builder, int_bound, float_bound, float_denote, REGEXES
+from .common import rust_str
 
 SER = ["Serialize", "Deserialize"]
 
@@ -60,8 +61,28 @@ def build(tier, seed):
             if len(d.vals) == 1 and d.vals[0].kind != "predicate" and not d.sans:
                 d.tags.append("C16")
             der_for(d)
+    for ty, dflt in (("i32", 3), ("u8", 50), ("i64", -1)):
+        for hv in (True, False):
+            idx += 1
+            d = b.new(inner_int(ty), tags=list(tags))
+            if hv:
+                d.vals.append(int_bound("greater_or_equal", ty, 1 if dflt > 0 else -5, "lit", d))
+            d.default = (str(dflt), dflt)
+            der_for(d, ["Default"])
+    for dflt in ("anonymous", " x "):
+        idx += 1
+        d = b.new(inner_string(), tags=list(tags))
+        d.sans.append(San("trim"))
+        d.vals.append(Vld("len_char_max", "20", 20))
+        d.default = (rust_str(dflt), dflt)
+        der_for(d, ["Default", "Hash"])
     # ---- floats
     for ti, ty in enumerate(FLOAT_TYPES):
+        idx += 1
+        d = b.new(inner_float(ty), tags=list(tags))
+        d.vals.append(Vld("finite"))
+        d.default = ("2.5", float_denote(ty, Fraction(5, 2)))
+        der_for(d, ["Default"])
         variants = [
             [],
             ["finite"],
